@@ -89,6 +89,20 @@ Theorem C11_comment_ignored : forall a c : list N, ~ In 35%N a -> clean_line (a 
 Proof. exact comment_ignored. Qed.
 Print Assumptions C11_comment_ignored.
 
+(* entries are case-insensitive: whatever the case of the rule text, what MixMatcher.Add stores (and the
+   matcher compares octet by octet with the lower-cased query name) contains no upper-case letter.
+   (Not proved: that two rule texts differing only in case denote the SAME entry — ParseReadable
+   commuting with lower-casing; exercised by the differential check, corpus case_fold*.) *)
+Theorem C11_entries_lowercase : forall (re_valid : list N -> bool) (r : list N) (e : entry),
+  parse_rule re_valid r = Ok e ->
+  match e with
+  | EDomain ls => Forall (Forall not_upper) ls
+  | EFull d => forall ls, scan d = Ok ls -> Forall (Forall not_upper) ls
+  | ERegexp _ => True
+  end.
+Proof. exact parse_rule_lower. Qed.
+Print Assumptions C11_entries_lowercase.
+
 (* ---------------------------------------------------------------- the text form *)
 (* letters/digits/hyphen verbatim, '.' -> "\.", '\' -> "\\", every other octet "\DDD" *)
 Theorem C11_readable : forall b : N,
